@@ -402,6 +402,14 @@ class Engine:
             for t in u.j.get("enum_tables", []):
                 key = u.qualify(t["path"], t.get("krate"))
                 self.enum_tables.setdefault(strip_generics(key), {int(v["discr"]): v["name"] for v in t["variants"]})
+        # (every enum the crates declare, whether or not some analysed body happens to switch on it)
+        for u in program.units:
+            for k_, a_ in (getattr(u, "adts", None) or {}).items():
+                if a_.get("kind") == "enum" and a_.get("variants") and all(v_.get("discr") is not None for v_ in a_["variants"]):
+                    try:
+                        self.enum_tables.setdefault(strip_generics(k_), {int(v_["discr"]): v_["name"] for v_ in a_["variants"]})
+                    except (TypeError, ValueError):
+                        pass
         self.enum_tables.update(CORE_ENUMS)
         self._bodies = {}
         for u in program.units:
